@@ -1,0 +1,46 @@
+//! Cooperative fault points for the deterministic-simulation harness.
+//!
+//! Only compiled with `--cfg rustfmt_verif`; inert unless `RUSTFMT_VERIF_PANIC`
+//! is set to `site[@substr][#n]`: the `n`-th (default first, `*` = every) hit of
+//! `site` whose detail contains `substr` panics.
+
+use std::cell::{Cell, RefCell};
+
+thread_local! {
+    static HITS: Cell<usize> = const { Cell::new(0) };
+    static CURRENT_INPUT: RefCell<String> = const { RefCell::new(String::new()) };
+}
+
+/// Remembers the input the parser is being built for, so that later fault
+/// points without a path of their own can be addressed by it.
+pub(crate) fn set_current_input(name: &str) {
+    CURRENT_INPUT.with(|c| *c.borrow_mut() = name.to_owned());
+}
+
+pub(crate) fn current_input() -> String {
+    CURRENT_INPUT.with(|c| c.borrow().clone())
+}
+
+pub(crate) fn fault_point(site: &str, detail: &str) {
+    let Ok(spec) = std::env::var("RUSTFMT_VERIF_PANIC") else {
+        return;
+    };
+    let (spec, nth) = match spec.rsplit_once('#') {
+        Some((s, n)) => (s.to_owned(), n.to_owned()),
+        None => (spec, "1".to_owned()),
+    };
+    let (want_site, substr) = match spec.split_once('@') {
+        Some((s, d)) => (s, d),
+        None => (spec.as_str(), ""),
+    };
+    if want_site != site || !detail.contains(substr) {
+        return;
+    }
+    let hit = HITS.with(|h| {
+        h.set(h.get() + 1);
+        h.get()
+    });
+    if nth == "*" || nth.parse::<usize>().ok() == Some(hit) {
+        panic!("rustfmt_verif: injected panic at {site} ({detail})");
+    }
+}
